@@ -187,9 +187,9 @@ func (d *IPv4Defragmenter) securityChecks(ip *layers.IPv4) error {
 	fragOffset := ip.FragOffset * 8
 
 	// don't allow fragment that would oversize an IP packet
-	if fragOffset+ip.Length > IPv4MaximumSize {
+	if int(fragOffset)+int(ip.Length) > IPv4MaximumSize {
 		return fmt.Errorf("defrag: fragment will overrun "+
-			"(handcrafted? %d > %d)", fragOffset+ip.Length, IPv4MaximumSize)
+			"(handcrafted? %d > %d)", int(fragOffset)+int(ip.Length), IPv4MaximumSize)
 	}
 
 	return nil
